@@ -10,6 +10,7 @@ import (
 	goat "github.com/avos-io/goat"
 	"github.com/avos-io/goat/gen/goatorepo"
 	"google.golang.org/grpc"
+	"google.golang.org/protobuf/types/known/wrapperspb"
 )
 
 // c10ExpiredThenEnd: streams opened with a short grpc-timeout whose handlers overrun it (they do work
@@ -96,6 +97,90 @@ func c10ExpiredThenEnd(r *Run) {
 				fmt.Sprintf("handlers finished when Serve returned: %d of %d", atomic.LoadInt32(&exitedAtReturn), nStreams), "all")
 		}
 		hooks.Reset(false)
+		settleGoroutines(0)
+	}
+}
+
+// c10ParkedThenEnd: a streaming handler that neither receives nor returns has one message in its queue;
+// the peer's next message for that stream holds the connection's read loop in the hand-off (the
+// documented head-of-line situation). THEN the connection ends — by Stop, or by a transport write that
+// fails (the reply of a unary call that finishes at that moment). Serve returns all the same, and the
+// handler's context is done.
+func c10ParkedThenEnd(r *Run) {
+	for i, fault := range []string{"stop", "writefail", "stop", "writefail"} {
+		if !r.Want("serve.parked") {
+			return
+		}
+		in := map[string]any{"fault": fault, "state": "read loop held in the hand-off to a handler that does not receive", "rep": i}
+		r.Progress("serve.parked", in)
+		sc := NewScript(0)
+		sc.Out = make(chan *Rpc, 64)
+		impl := &Impl{}
+		hctx := make(chan context.Context, 1)
+		gate := make(chan struct{})
+		impl.SetUnary(func(ctx context.Context, req []byte) ([]byte, error) { <-gate; return req, nil })
+		impl.SetStream(func(m string, ss grpc.ServerStream) error {
+			hctx <- ss.Context()
+			<-ss.Context().Done()
+			return ss.Context().Err()
+		})
+		srv := goat.NewServer("srv")
+		srv.RegisterService(&echoDesc, impl)
+		served := make(chan error, 1)
+		go func() { served <- srv.Serve(context.Background(), sc) }()
+		hdr := func(m string) *goatorepo.RequestHeader {
+			return &goatorepo.RequestHeader{Method: m, Destination: "srv", Source: "c"}
+		}
+		body, _ := goat_marshal(&wrapperspb.BytesValue{Value: []byte("m")})
+		ok := within(hangTimeout, func() {
+			sc.In <- &Rpc{Id: 1, Header: hdr(mBidi)}
+			sc.In <- &Rpc{Id: 1, Header: hdr(mBidi), Body: &goatorepo.Body{Data: body}}
+			sc.In <- &Rpc{Id: 2, Header: hdr(mUnary), Body: &goatorepo.Body{Data: body}}
+		})
+		var hc context.Context
+		if ok {
+			select {
+			case hc = <-hctx:
+			case <-time.After(hangTimeout):
+				ok = false
+			}
+		}
+		if !ok {
+			r.Violate("serve.parked.setup", "schedule", "the requests were not taken", in, goroutineDump(), nil)
+			close(gate)
+			srv.Stop()
+			sc.FailRead(io.EOF)
+			return
+		}
+		// the message that parks the read loop
+		go func() {
+			select {
+			case sc.In <- &Rpc{Id: 1, Header: hdr(mBidi), Body: &goatorepo.Body{Data: body}}:
+			case <-time.After(3 * hangTimeout):
+			}
+		}()
+		time.Sleep(30 * time.Millisecond)
+		switch fault {
+		case "stop":
+			srv.Stop()
+		case "writefail":
+			sc.FailWrite(errInjectedWrite)
+		}
+		close(gate) // the unary handler finishes: its reply is written (and, for writefail, fails)
+		returned := within(hangTimeout, func() { <-served })
+		r.Eval(fmt.Sprintf("serve.parked/%s/%d", fault, i), true)
+		r.Count("c10.parked-then-end")
+		if !returned {
+			r.Violate("serve.parked.hang", "schedule", "Serve did not return after the connection ended ("+fault+") while its read loop was held by a handler that does not receive", in, goroutineDump(), nil)
+			sc.FailRead(io.EOF)
+		} else {
+			select {
+			case <-hc.Done():
+			case <-time.After(hangTimeout):
+				r.Violate("serve.parked.ctx", "schedule", "Serve returned but the streaming handler's context is still live", in, nil, "done")
+			}
+		}
+		sc.FailRead(io.EOF)
 		settleGoroutines(0)
 	}
 }
